@@ -184,8 +184,10 @@ func (q aquery) render(base, unit int64) string {
 // ---------------------------------------------------------------- execution
 
 type grow struct {
-	T int64       `json:"t"`
-	V interface{} `json:"v"`
+	T   int64       `json:"t"`
+	V   interface{} `json:"v"`
+	V2  interface{} `json:"v2,omitempty"`
+	Two bool        `json:"two,omitempty"`
 }
 type gseries struct {
 	Host string `json:"host"`
@@ -218,11 +220,16 @@ func runQuery(ctx context.Context, q string, sm query.ShardMapper) ([]gseries, e
 		if len(out) == 0 || !row.Series.SameSeries(out[len(out)-1].ser) {
 			out = append(out, gseries{Host: host, ser: row.Series})
 		}
-		if len(row.Values) != 2 {
+		if len(row.Values) != 2 && len(row.Values) != 3 {
 			return nil, fmt.Errorf("row with %d values", len(row.Values))
 		}
 		g := &out[len(out)-1]
-		g.Rows = append(g.Rows, grow{T: row.Time, V: row.Values[1]})
+		gr := grow{T: row.Time, V: row.Values[1]}
+		if len(row.Values) == 3 {
+			gr.V2 = row.Values[2]
+			gr.Two = true
+		}
+		g.Rows = append(g.Rows, gr)
 		n++
 		if n > 5000 {
 			return nil, fmt.Errorf("more than 5000 rows")
@@ -482,6 +489,13 @@ func adapter(raw json.RawMessage, env *rt.Env) rt.Result {
 					v := fmt.Sprint(r.V)
 					if isNull(r.V) {
 						v = "null"
+					}
+					if r.Two {
+						v2 := fmt.Sprint(r.V2)
+						if isNull(r.V2) {
+							v2 = "null"
+						}
+						v += "," + v2
 					}
 					rs = append(rs, t+":"+v)
 				}
